@@ -560,6 +560,8 @@ class NpEval:
                 # x/0: the sign of the infinity depends on the sign of the zero,
                 # which the comparison rule (-0.0 == 0.0) does not pin down
                 self.exclude("division by zero")
+            if op == "pow" and ra.kind == "c" and not np.all(np.isfinite(np.asarray(r))):
+                self.exclude("complex power overflowing to a non-finite value (NaN pattern of the overflow is implementation-defined)")
             if op == "pow" and (ra.kind == "c") and (np.any(np.asarray(a) == 0)
                                                      or not np.all(np.isfinite(np.asarray(a, dtype=np.complex128)))
                                                      or not np.all(np.isfinite(np.asarray(b, dtype=np.complex128)))):
